@@ -885,3 +885,41 @@ def judge_tokens(toks, strict=False, spec=SPEC, lr=None) -> Verdict:
         if soft:
             return Verdict(UNSPEC, "semantic", None, soft, toks, tree, lr)
     return Verdict(ACCEPT, None, None, (), toks, tree, lr)
+
+
+# ---------------------------------------------------------------------------
+# canonical argument order (tagged arguments are unordered in Sieve)
+# ---------------------------------------------------------------------------
+def canon_nf(nf, spec=SPEC):
+    """Sort the tagged arguments (tag + its parameter) of every node by tag name,
+    keep positional arguments in order.  Used where a property speaks of the
+    *same tagged arguments*, not of their order (C04, C06, C11)."""
+    name, args, tests, block = nf
+    sp = spec.get(name)
+    if sp is not None:
+        groups, rest = [], []
+        i = 0
+        args = list(args)
+        ok = True
+        while i < len(args):
+            a = args[i]
+            if a[0] == "tag" and not rest:
+                ent = sp["tags"].get(a[1])
+                if ent is not None and ent[1] is not None and i + 1 < len(args) \
+                        and args[i + 1][0] != "tag":
+                    groups.append((a, args[i + 1]))
+                    i += 2
+                    continue
+                mandatory = any(isinstance(p, tuple) and a[1] in p[1] for p in sp["pos"])
+                if mandatory:
+                    rest.append(a)
+                else:
+                    groups.append((a,))
+                i += 1
+                continue
+            rest.append(a)
+            i += 1
+        groups.sort(key=lambda g: g[0][1])
+        args = tuple(x for g in groups for x in g) + tuple(rest)
+    return (name, tuple(args), tuple(canon_nf(t, spec) for t in tests),
+            None if block is None else tuple(canon_nf(c, spec) for c in block))
